@@ -15,7 +15,7 @@ OUT="$VERIF/.cache/$H/$WORLD${RACE:+-race}"
 if [ -x "$OUT" ]; then echo "$OUT"; exit 0; fi
 mkdir -p "$VERIF/.cache/$H"
 # keep the cache small: drop entries other than the current hash that are older than a day
-find "$VERIF/.cache" -mindepth 1 -maxdepth 1 -type d ! -name "$H" -mmin +720 -exec rm -rf {} + 2>/dev/null
+find "$VERIF/.cache" -mindepth 1 -maxdepth 1 -type d ! -name "$H" -mmin +90 -exec rm -rf {} + 2>/dev/null
 SCRATCH=$(mktemp -d /var/tmp/vsim.XXXXXX) || exit 2
 trap 'rm -rf "$SCRATCH"' EXIT
 G="$SCRATCH/galaxy"
